@@ -457,6 +457,41 @@ reg('C17', module='c17', level='exploration',
                        'shortcuts_compared': 50},
              'thorough': {'histories': 20000, 'api_calls': 200000}})
 
+reg('C08', module='c08', level='exploration',
+    technique=('runtime monitoring: SMT-LIB text generated with syntactic '
+               'variants is read by the real parser and by an independent '
+               'strict reader; every returned command argument is compared '
+               'by reference value; malformed variants must raise; '
+               'rejections are checked against a committed list of '
+               'unhandled constructs'),
+    rule=('type-directed random scripts (6 theory themes x logics incl. '
+          'none; declare-fun/-const/-sort, define-fun with parameters, '
+          'define-sort, parallel/nested/shadowing let, quantifiers shadowing '
+          'globals and definitions, numerals/decimals/rationals by logic, '
+          '#b/#x/(_ bvN w), indexed operators, chainable forms, (as const), '
+          'annotations, push/pop/reset, get-value, check-sat-assuming) x '
+          'renderings (white space, CR/LF, comments, |quoted| simple '
+          'symbols); hand-written corner scripts; malformed variants '
+          '(undeclared identifier, unknown command, wrong arity, ill-sorted, '
+          'unbalanced); model texts for parse_model; distinct = script text'),
+    level_text=('For every script both readers accept, command lists agree '
+                'and each asserted term, definition body, declaration, '
+                'get-value / check-sat-assuming argument has the value the '
+                'independent reader gives the text under exhaustive or '
+                'sampled interpretations; listed malformed variants raise; '
+                'a script rejected by the parser must contain a construct '
+                'listed as unhandled in data/accept_baseline.json.'),
+    level_note='trusts vf/smtread.py and vf/refeval.py',
+    assumptions=['the independent reader implements SMT-LIB 2.6 for the '
+                 'fragment the generator writes; quantifiers are evaluated '
+                 'over small finite domains on both sides'],
+    require={'quick': {'scripts_compared': 1500, 'terms_compared': 4000,
+                       'malformed_variants': 400, 'models_compared': 100},
+             'thorough': {'scripts_compared': 100000,
+                          'terms_compared': 300000,
+                          'malformed_variants': 30000,
+                          'models_compared': 10000}})
+
 reg('C09', module='c09', level='exploration',
     technique=('runtime monitoring: print/parse round trips observed by '
                'object identity (SMT-LIB), command-list keys (scripts) and '
